@@ -248,6 +248,9 @@ ADDED = {
     "C16__r7": " The two ends of a link learn of its loss separately (the Leader's end as late as possible); cause accounting: every new generation the Leader starts needs a lost link or a connection that had been quiet for a ping interval.",
     "C17__r7": ' Full-stack family (harness/fullstack.py): two real wormholes created with dilation=True run over the mailbox server model AND the in-memory TCP network at once (dilate-N phases through the real Send/Mailbox/Order/Receive/Boss path, mailbox drops and reordered delivery, w.dilate() early or late, application messages alongside): the statement itself - w.close() on a wormhole on which dilate() was called completes (real Terminator/Dilator), from every state incl. dilate() after the versions arrived, and connect() fails with OldPeerCannotDilateError against a real non-dilating wormhole.',
     "C19__r7": ' Job tab_session: completer(text, state) driven as readline drives it over three TAB presses on symbolic lines (a, b, b again); every completion offered extends the line as it was at that TAB.',
+    "C02__r8": " Full-stack family: a dilating wormhole paired with one created WITHOUT dilation, and a pair that dilates late, under a reordering server - the application's message stream is exactly what the peer sent (no dilate-N plaintext is ever handed over as a message).",
+    "C14__r8": ' Every NoTransition is recorded where Automat constructs it, so one swallowed by a Deferred (Terminator under RendezvousConnector.stop()) still counts.',
+    "C18__r8": ' One configuration uses the Deferred API with nested callbacks (versions and messages asked for from inside the key callback).',
     "C20__r7": ' Well-formed lists contain twin entries (one target as Tor and as direct hint, symbolic types/priorities): an undialable twin must not keep the dialable one from being dialled.',
 }
 for _k, _v in ADDED.items():
